@@ -1,0 +1,40 @@
+//go:build verif
+
+package rsa
+
+import "crypto"
+
+// Verification hooks (add-only): the unexported RSA primitives, so that the
+// correspondence harness can run them directly.
+
+// VerifEncrypt is encrypt (the raw public operation, left-padded to Size()).
+func VerifEncrypt(pub *PublicKey, plaintext []byte) ([]byte, error) { return encrypt(pub, plaintext) }
+
+// VerifDecrypt is decrypt (the raw private operation; check = re-encrypt and compare).
+func VerifDecrypt(priv *PrivateKey, ciphertext []byte, check bool) ([]byte, error) {
+	return decrypt(priv, ciphertext, check)
+}
+
+// VerifCheckPub is checkPub.
+func VerifCheckPub(pub *PublicKey) error { return checkPub(pub) }
+
+// VerifConstructEM is pkcs1v15ConstructEM.
+func VerifConstructEM(pub *PublicKey, hash crypto.Hash, hashed []byte) ([]byte, error) {
+	return pkcs1v15ConstructEM(pub, hash, hashed)
+}
+
+// VerifHashPrefixes returns the DigestInfo prefix table of PKCS #1 v1.5.
+func VerifHashPrefixes() map[crypto.Hash][]byte { return hashPrefixes }
+
+// VerifDecryptPKCS1v15 is decryptPKCS1v15 (the constant-time unpadding scan).
+func VerifDecryptPKCS1v15(priv *PrivateKey, ciphertext []byte) (valid int, em []byte, index int, err error) {
+	return decryptPKCS1v15(priv, ciphertext)
+}
+
+// VerifEMSAPSSEncode / VerifEMSAPSSVerify are the PSS encoding operations.
+func VerifEMSAPSSEncode(mHash []byte, emBits int, salt []byte, h crypto.Hash) ([]byte, error) {
+	return emsaPSSEncode(mHash, emBits, salt, h.New())
+}
+func VerifEMSAPSSVerify(mHash, em []byte, emBits, sLen int, h crypto.Hash) error {
+	return emsaPSSVerify(mHash, em, emBits, sLen, h.New())
+}
